@@ -334,6 +334,14 @@ def ev(e, env):
                 if 'staticmethod' not in decos:
                     args = [o] + args
                 return call(FuncRef(fn, env), args, {k.arg: ev(k.value, env) for k in e.keywords if k.arg}, env)
+        if isinstance(f, ast.Name) and f.id == 'bool' and len(e.args) == 1 and not e.keywords and 'bool' not in env:
+            return truth(ev(e.args[0], env))
+        if isinstance(f, ast.Name) and f.id in ('any', 'all') and len(e.args) == 1 and not e.keywords and f.id not in env:
+            a0 = e.args[0]
+            if isinstance(a0, (ast.Tuple, ast.List)):
+                vals = [truth(ev(x, env)) for x in a0.elts]
+                return any(vals) if f.id == 'any' else all(vals)
+            raise Unsupported(f"{f.id}() of a non-literal")
         if isinstance(f, ast.Name) and f.id == 'len' and len(e.args) == 1 and not e.keywords:
             v = ev(e.args[0], env)
             if isinstance(v, (tuple, list, str, dict)):
